@@ -819,3 +819,46 @@ func trimNeverEmpty(c *Ctx, r *Report, rule string) {
 	}
 	r.check(n > 0 && len(bad) == 0, rule, "TrimDomainName", c.pos(fn.Pos()), fmt.Sprintf("%d return(s) of s[:len(s)-1], each with s != \".\"", n), "the return at %s hands out s without its last octet where s can be \".\": TrimDomainName(\".\", \".\") is the empty string, not \"@\" - AddOrigin and TrimDomainName are not inverse for the apex under the root origin", strings.Join(bad, ", "))
 }
+
+// foldNotEscapeConditioned (F81): the arm of normalizedString that lower-cases a letter of the owner name is taken
+// for every letter, escaped or not: no boolean carried round the loop (the escape flag) is among the tests that lead
+// to the store of the folded octet. IsDuplicate's name comparison folds every letter; the key Dedup groups by must too.
+func foldNotEscapeConditioned(c *Ctx, r *Report, rule string) {
+	r.rule(rule, 1, "normalizedString lower-cases a letter of the owner name whether or not a backslash precedes it")
+	fn := c.ssaFunc("normalizedString")
+	if fn == nil {
+		r.cerr(rule, "normalizedString", "function not found")
+		return
+	}
+	r.fn("normalizedString")
+	n := 0
+	var bad []string
+	allInstrs(fn, func(in ssa.Instruction) {
+		st, ok := in.(*ssa.Store)
+		if !ok {
+			return
+		}
+		if _, isIdx := st.Addr.(*ssa.IndexAddr); !isIdx {
+			return
+		}
+		add, ok := stripConv(st.Val).(*ssa.BinOp)
+		if !ok || (add.Op != token.ADD && add.Op != token.OR) {
+			return
+		}
+		k, isK := constIntOf(add.Y)
+		if !isK || k != 32 {
+			return
+		}
+		n++
+		for _, f := range factsAt(fn, st.Block()) {
+			for v := range sliceOf(f.Atom) {
+				if phi, isPhi := v.(*ssa.Phi); isPhi {
+					if bt, okb := phi.Type().Underlying().(*types.Basic); okb && bt.Kind() == types.Bool {
+						bad = append(bad, fmt.Sprintf("%s: the fold is under a test of a flag carried round the loop (%s)", c.pos(st.Pos()), describeValue(f.Atom)))
+					}
+				}
+			}
+		}
+	})
+	r.check(n > 0 && len(bad) == 0, rule, "normalizedString", c.pos(fn.Pos()), fmt.Sprintf("%d fold store(s), none under the escape flag", n), "%s: a letter written behind a backslash keeps its case in the key, so two records that IsDuplicate calls duplicates (its name comparison folds every letter) get different keys and Dedup keeps both", strings.Join(uniqStrings(bad), "; "))
+}
